@@ -168,6 +168,8 @@ func init() {
 func init() {
 	debugCmds["dpaths"] = func(args []string) {
 		p, _ := loadProg(debugRepo(), "")
+		setInlinePolicy()
+		theProg = p
 		fn := p.Func(args[0], args[1], args[2])
 		ps, err := feasiblePaths(fn, 5000)
 		fmt.Println(err)
